@@ -112,6 +112,12 @@ pub fn setup(prop: &str, tier: &str, variant: u64) -> Setup {
             p.nested = 8;
             p.subdocs = false;
             p.keys = 2;
+            // every other history stores its quotations under two keys only and quotes more: overlapping quotations
+            // of which one is deleted (overwritten) while the other lives on
+            if variant % 2 == 0 {
+                p.quote_keys = 2;
+                p.calls[20] = 16;
+            }
         }
         "C13" => {
             m.prop = "C13";
